@@ -1,0 +1,45 @@
+//go:build verif
+
+package algo
+
+import "github.com/junegunn/fzf/src/util"
+
+// Verification hooks (build tag verif): read-only accessors, no logic.
+
+func VerifCharClassOf(r rune) int         { return int(charClassOf(r)) }
+func VerifCharClassOfNonAscii(r rune) int { return int(charClassOfNonAscii(r)) }
+func VerifNormalizeRune(r rune) rune      { return normalizeRune(r) }
+func VerifBonusFor(prev, cur int) int     { return int(bonusFor(charClass(prev), charClass(cur))) }
+func VerifBonusMatrix(prev, cur int) int  { return int(bonusMatrix[prev][cur]) }
+func VerifInitialCharClass() int          { return int(initialCharClass) }
+func VerifDelimiterChars() string         { return delimiterChars }
+func VerifWhiteChars() string             { return whiteChars }
+func VerifNormalized() map[rune]rune      { return normalized }
+func VerifBonusBoundaryWhite() int        { return int(bonusBoundaryWhite) }
+func VerifBonusBoundaryDelimiter() int    { return int(bonusBoundaryDelimiter) }
+func VerifConstants() map[string]int {
+	return map[string]int{
+		"scoreMatch": scoreMatch, "scoreGapStart": scoreGapStart, "scoreGapExtension": scoreGapExtension,
+		"bonusBoundary": bonusBoundary, "bonusNonWord": bonusNonWord, "bonusCamel123": bonusCamel123,
+		"bonusConsecutive": bonusConsecutive, "bonusFirstCharMultiplier": bonusFirstCharMultiplier,
+	}
+}
+func VerifCalculateScore(caseSensitive bool, normalize bool, text []rune, isBytes bool, pattern []rune, sidx int, eidx int, withPos bool) (int, *[]int) {
+	chars := verifChars(text, isBytes)
+	return calculateScore(caseSensitive, normalize, &chars, pattern, sidx, eidx, withPos)
+}
+func VerifAsciiFuzzyIndex(text []rune, isBytes bool, pattern []rune, caseSensitive bool) (int, int) {
+	chars := verifChars(text, isBytes)
+	return asciiFuzzyIndex(&chars, pattern, caseSensitive)
+}
+
+func verifChars(text []rune, isBytes bool) util.Chars {
+	if isBytes {
+		b := make([]byte, len(text))
+		for i, r := range text {
+			b[i] = byte(r)
+		}
+		return util.ToChars(b)
+	}
+	return util.RunesToChars(text)
+}
